@@ -35,6 +35,32 @@ CLAIMED = {
             "Theorems in lean/LsProps/C04.lean: 0 <= load-cutoff duration <= retention for every non-negative retention and every int64 cut-off setting (zero, negative, larger than the retention); hence for all t_sweep <= t_load a marker the sweeper could remove is below the load cut-off and is refused on an absent key; a deletion at T wins against every older version in either arrival order and stays until a version beating it arrives; at byte level a marker replaces an older stored live version. Correspondence: the real config.Sweeper on boundary and random (retention_days, cut-off) pairs, and the merge stream. 'Markers travel in every snapshot' is C06_complete, 'a missing application key becomes a marker' is C11_capture.",
             "7/C04",
             "RetentionDuration()'s float32 multiplication is outside the model: its int64 result is an input, compared differentially. Negative retention_days is outside the domain. Finding D8 (overflow of retention*3) fixed in /repo."),
+    "C07": ("Lean 4 proof (encoder exactness, round trip, valid protobuf, compatibility with the protobuf semantics of the published schema for all re-encodings) + differential correspondence of the hand-written codec and of the generated gogo codec",
+            "Theorems in lean/LsProps/C07.lean: the encoder is total and its size computations/buffers are exact on every well-formed snapshot; its bytes are a valid message of snapshot.proto (PbSpec, a declarative proto3 semantics) with the encoded value; every message of the schema describing LMDB content (any field order, repeated scalars, split meta, unknown fields of wire types 0/1/2/5 at all four levels) decodes through Snapshot.Unmarshal + full lazy iteration to the protobuf value, under csproto's stated limits at the two outer levels (finding D13 + witness theorems); round trip as corollary. Model tied to the code by regenerated field numbers and byte-exact/content-exact differential streams (encode, decode, gogo reference, re-encoder); finding D2 fixed.",
+            "7/C07", ""),
+    "C08": ("Lean 4 proof (decoder total on all byte strings: no out-of-range slice expression, no loop beyond len+1 iterations, decoded size <= input) + differential correspondence on a malformed-input stream and a LoadData oracle with recover/watchdog",
+            "Theorems in lean/LsProps/C08.lean about the offset-level model (Go int offsets, bounds-checked slice expressions, uint64->int conversions, loops on fuel): for every byte string < 2^63 bytes decodeAll (Snapshot.Unmarshal + every DBI.Next + KV.Unmarshal) returns a snapshot or an error, each decoder alone likewise, every iteration consumes >= 1 byte, decoded keys+values <= blob size. Correspondence: random bytes, truncations, bit flips, adversarial tag/length varints (2^k±1, >= 2^31, >= 2^63, 10-byte, overlong) at every nesting level, through Unmarshal and through LoadData in a gzip container; finding D3 fixed.",
+            "7/C08", "PARTIAL: proof for the protobuf layer; gzip decompression cost, real memory use and process survival are runtime behaviour observed by the harness (per-op recover + watchdog), not proved; the receiver part (corrupt blob ignored from then on, D10) belongs to the C16 receiver model."),
+    "C06": ("Lean 4 proof (SendOnce/readDBI = exact image of the dump-time LMDB state) + transaction-level differential correspondence on real LMDB and an oracle that re-derives every stored snapshot from a dump",
+            "Theorems in lean/LsProps/C06.lean about the model of SendOnce/readDBI (lean/LsModel/Txn.lean): the snapshot holds exactly one message per non-private DBI of the dump-time state, in name order, with the original DBI's flags, the dupsort transform iff duplicate-keys, and for every stored entry (live, empty, marker) exactly (key, bytes after all extension blocks, header timestamp, flags masked); the header's local transaction id never enters; native mode leaves the LMDB unchanged and the snapshot is a function of one state; returned id = LastTxnID; receive-only dumps nothing. Correspondence: random multi-DBI environments (private DBIs, extension blocks, empty values, markers, integer-key and duplicate-keys DBIs) through the real SendOnce; the stored blob is decoded and compared with an independent dump.",
+            "7/C06",
+            "PARTIAL: that the real dump happens inside one LMDB transaction with snapshot isolation under a concurrent writer is LMDB's (trusted, exercised only). Known finding D13 (SIGBUS in lmdb-go reading an empty application value at the end of the data file with RawRead)."),
+    "C18": ("Lean 4 proof (LoadOnce decision logic: version gates, transform table, create rules, private DBIs skipped, failure at any DBI keeps the environment) + transaction-level differential correspondence with failing loads on real LMDB",
+            "Theorems in lean/LsProps/C18.lean about the model of LoadOnce: an error anywhere (k-th DBI, any gate, strategy error) yields no new environment; version gate refused iff fv = 0 or cv > current or fv < compat for all naturals; full decision table of ValidateTransform; private DBIs of a snapshot are ignored; a snapshot without application DBIs is a no-op whatever its versions; create rules (v3+ or override; shadow DBIs get only the allowed mask); v1 empty value = deletion. Correspondence + oracle: random snapshots with failures injected in any DBI (bad transform, versions 0..4, uncreatable DBIs, malformed stored values); byte-exact dump and LastTxnID before/after a failed load must be equal.",
+            "7/C18",
+            "PARTIAL: atomicity of the abort itself is LMDB's (trusted); the model expresses it by construction (Except). MDB_MAP_FULL and context cancellation are not injected."),
+    "C11": ("Lean 4 proof (capture and projection characterised per key through the proved IterUpdate/Update specifications; mirror invariant after every LoadOnce) + transaction-level differential correspondence and a map-based mirror oracle on real LMDB",
+            "Theorems in lean/LsProps/C11.lean about mainToShadow / shadowToMain / LoadOnce in non-native mode: per key an unchanged application value leaves the shadow bytes untouched, a changed/new value becomes (detection time, live, value) with a well-formed header, a missing key becomes a marker, markers stay; the projection leaves exactly the non-empty live shadow values in the application DBI and nothing else changes; after every step application DBI = projection of its shadow; an application write survives unless the snapshot holds an entry that wins against (detection time, value); untouched keys keep their bytes; integer-key DBIs inherit MDB_INTEGERKEY (incl. key 0, D6 fixed). Negative witness C11_empty_value_witness = known finding D7.",
+            "7/C11",
+            "PARTIAL w.r.t. empty application values: known finding D7 (an empty application value is removed from the application DBI by the projection) — theorems carry 'value non-empty'. Known finding D13. The shared monotone clock (detection time above every stored timestamp) is a hypothesis (documented operating assumption)."),
+    "C10": ("Lean 4 proof (a merge with nothing newer and no local change returns the identical environment: no LMDB transaction recorded; idempotent re-merge; dupsort rewrite keeps content) + transaction-level and trace-level correspondence with LastTxnID and upload-cause oracles",
+            "Theorems in lean/LsProps/C10.lean: C10_noop_txn (native, any padding, any cut-off), C10_noop_txn_shadow (non-native under the mirror invariant), C10_dupsort_rewrites_same_content, C10_merge_idempotent_txn, C10_after_load_nothing_newer. Oracles: re-merge on real LMDB compares byte-exact dump, LastTxnID and the returned id; at trace level (real sync loops single-stepped through yield points) every Store must be preceded by an application commit or be the start-up store.",
+            "7/C10",
+            "The fleet-level bound on the number of further snapshots is validated at trace level only (no unbounded theorem yet). The forced snapshot interval is disabled in traces."),
+    "C13": ("Lean 4 proof (slice soundness/progress/resume, whole pass with arbitrary application commits at slice boundaries: sound and complete for untouched expired markers; only private DBIs in non-native mode) + differential correspondence of the real sweeper on real LMDB with 1000-entry slices and scripted application writes at the slice boundaries",
+            "20 theorems in lean/LsProps/C13.lean about the model of Sweeper.sweep + LimitScanner (lean/LsModel/Sweeper.lean): a slice only removes entries that are, in that transaction, markers older than the cut-off and alters nothing else; resume rule correct when the resume entry was kept, deleted or changed; without application writes the result is the filter and independent of the slicing; with arbitrary application commits every untouched expired marker present at the start is gone at the end; non-native mode sweeps only private DBIs; a slice records a transaction iff it removed something.",
+            "7/C13",
+            "The wall-clock deadline is abstracted to 'a positive slice length' (the real one is a multiple of the scanner's check interval, regenerated constant). Completeness assumes the pass terminates (an application inserting ahead of the cursor forever is excluded). The sweep cut-off is scripted through a guard-tagged hook."),
 }
 
 ALL = ["C%02d" % i for i in range(1, 21)]
